@@ -43,6 +43,11 @@ pub struct TShared {
     pub t: std::sync::Mutex<TTable>,
     pub cv_main: std::sync::Condvar,
     pub cv_workers: std::sync::Condvar,
+    /// rendezvous ("storm" executions): a firing thread announces that it is about to call wake() and briefly spins
+    /// until the task thread answers by starting a (spurious) poll, so that wake() and poll() really overlap
+    pub rdv: AtomicBool,
+    pub about: std::sync::atomic::AtomicUsize,
+    pub go: std::sync::atomic::AtomicUsize,
 }
 impl TShared {
     pub fn new() -> TShared {
@@ -50,6 +55,9 @@ impl TShared {
             t: std::sync::Mutex::new(TTable { wakers: vec![], in_flight: 0, woken_epoch: 0, stop: false, fires: 0, fires_stale: 0, root_wakes: 0, root_wakes_stale: 0, cur_epoch: 0, wake_panics: vec![] }),
             cv_main: std::sync::Condvar::new(),
             cv_workers: std::sync::Condvar::new(),
+            rdv: AtomicBool::new(false),
+            about: std::sync::atomic::AtomicUsize::new(0),
+            go: std::sync::atomic::AtomicUsize::new(0),
         }
     }
     pub fn push(&self, c: Cid, wk: Waker) {
